@@ -57,10 +57,12 @@ PROPS['C15'] = {
 PROPS['C20'] = {
     'level': 'proof', 'claimed': True,
     'claim': 'weakest pre-expectation argument for the two reservoir samplers (tips: cmd.randomTips; trees: gotree sample, with and without replacement): the real loop bodies are proved, for every state and every draw r, to be exactly the abstract reservoir step (one draw uniform in [0, #seen+1) resp. [0,#seen); slot r replaced iff r < k resp. r == 0; all other slots unchanged), and the lemmas prove by real arithmetic that this step preserves the invariant expectation Pr[element in sample] = k/#seen (resp. 1/#seen per slot) and that no other draw range does. Unbounded in input size, sample size and seed',
-    'level_note': 'relative to: soundness of the wpe loop rule (A-PGCL), math/rand.Intn uniform on [0,n) (A-RAND), the VC generator, go/ssa, the SMT solvers. Shuffles (ShuffleTips, RotateNeighbors) and the uniform tree generator are not yet under contract',
+    'level_note': 'relative to: soundness of the wpe loop rule (A-PGCL), math/rand.Intn uniform on [0,n) (A-RAND), the VC generator, go/ssa, the SMT solvers. Tree generators: the insertion branch (uniform) resp. tip (Yule) is drawn by one rand.Intn over exactly the candidates created so far, and every branch/tip created becomes a candidate exactly once. Shuffles (ShuffleTips, RotateNeighbors) are not under contract for uniformity',
     'packages': ['./tree', './hashmap', './io/...', './support', './acr', './asr', './cmd'],
     'functions': [('cmd.randomTips', {'only': ['callsite', 'step', 'inv', 'post', 'pre', 'bounds', 'nil', 'loopframe', 'frame']}),
-                  ('cmd.sampleCmd.RunE', {'only': ['callsite', 'step', 'inv', 'nilchan']})],
+                  ('cmd.sampleCmd.RunE', {'only': ['callsite', 'step', 'inv', 'nilchan']}),
+                  ('tree.RandomUniformBinaryTree', {'match': [r'^callsite\.math/rand', r'^callsite\..*GraftTipOnEdge', r'^step']}),
+                  ('tree.RandomYuleBinaryTree', {'match': [r'^callsite\.math/rand', r'^callsite\..*GraftTipOnEdge', r'^step']})],
     'lemma_files': ['cmd'],
     'trusted_base': TB_COMMON + ['A-PGCL: weakest pre-expectation calculus (loop rule with invariant expectation)', 'A-RAND: rand.Intn(n) uniform on [0,n)'],
     'assumptions': A_COMMON,
@@ -243,7 +245,10 @@ PROPS['C16'] = {
     'level_note': INVNOTE,
     'packages': ['./tree', './hashmap'],
     'functions': ['(*tree.Tree).GraftTipOnEdge', '(*tree.Tree).NewNode', '(*tree.Tree).ConnectNodes',
-                  ('tree.RandomUniformBinaryTree', {'match': [r'^post', r'^callsite', r'^step', r'^inv', r'^bounds']})],
+                  ('tree.RandomUniformBinaryTree', {'match': [r'^post', r'^callsite', r'^step', r'^inv', r'^bounds']}),
+                  ('tree.RandomYuleBinaryTree', {'match': [r'^post', r'^callsite', r'^step', r'^inv', r'^pre\.rand']}),
+                  ('tree.allTopologies_recur', {'match': [r'^callsite', r'^step']}),
+                  ('tree.AllTopologies', {'match': [r'^post', r'^callsite']})],
     'trusted_base': TB_COMMON,
     'assumptions': A_COMMON,
     'not_decided': ['each of the (2n-5)!! / (2n-3)!! topologies exactly once (combinatorial bijection)', 'uniqueness of generated tip names (strconv.Itoa injective: trusted)'],
